@@ -11,7 +11,9 @@ import closedform as cf
 from props import c01, c02, c04
 
 REQUIRED_THEOREMS = [
-    'C03_s1_mech_is_partial', 'C03_s1_sigma_is_partial', 'llS1Raw_eq_llOf',
+    'C03_s1_mech_is_partial', 'C03_s1_sigma_is_partial', 'llS1Raw_eq_llOf', 'C03_s1_is_gradient',
+    'llOf_curve_hasDerivAt', 'emDPsi_linear', 'C03_hier_upstream_is_gradient', 'C03_hier_gauss_end_to_end',
+    'C03_hier_logn_end_to_end', 'llS1Grad_length_eq',
     'em_hasDerivAt', 'C03_loglik_hasDerivAt', 'C03_s1_layout', 'C03_s1_mech_entry', 'C03_score_agree',
     'C03_posterior_grad', 'C03_hier_chain', 'C03_switch_step', 'C03_switch_history', 'C03_switch_from_new',
     'C03_switch_columns_published_order']
